@@ -184,6 +184,34 @@ pub fn any_repr(m: &'static Model) -> BoxedStrategy<Repr> {
     .boxed()
 }
 
+/// long lengths: around powers of two (where fast paths and block algorithms switch) and uniform
+pub fn long_len(thorough: bool) -> BoxedStrategy<usize> {
+    let top = if thorough { 16 } else { 14 };
+    let mut around = vec![];
+    for k in 10..=top {
+        for d in [-1i64, 0, 1, 2] {
+            around.push(((1i64 << k) + d) as usize);
+        }
+    }
+    let hi = if thorough { 70_000usize } else { 20_000 };
+    prop_oneof![3 => select(around), 1 => 1000..=hi].boxed()
+}
+
+pub fn codes_long(m: &'static Model, thorough: bool) -> BoxedStrategy<Vec<u8>> {
+    long_len(thorough).prop_flat_map(move |n| codes_n(m, n)).boxed()
+}
+
+/// a long sequence in any representation
+pub fn seq_spec_long(id: CodecId, thorough: bool) -> BoxedStrategy<SeqSpec> {
+    let m = id.model();
+    (codes_long(m, thorough), repr(m)).prop_map(|(codes, repr)| SeqSpec { codes, repr }).boxed()
+}
+
+pub fn owned_spec_long(id: CodecId, thorough: bool) -> BoxedStrategy<SeqSpec> {
+    let m = id.model();
+    (codes_long(m, thorough), owned_repr(m)).prop_map(|(codes, repr)| SeqSpec { codes, repr }).boxed()
+}
+
 pub fn codec() -> BoxedStrategy<CodecId> {
     select(crate::model::ALL_CODECS.to_vec()).boxed()
 }
